@@ -11,39 +11,56 @@ from . import common
 from .common import Corr
 
 ID = "C11"
-LEAN_MODULES = ["TempestVerif.Props.C11", "TempestVerif.Props.C11Pipeline"]
+LEAN_MODULES = ["TempestVerif.Props.C11", "TempestVerif.Props.C11Pipeline", "TempestVerif.Props.C11Modes",
+                "TempestVerif.Props.C11SM", "TempestVerif.Props.C11Redraw", "TempestVerif.Props.C11Stat",
+                "TempestVerif.Props.C11Law", "TempestVerif.Props.C11Final", "TempestVerif.Props.C11RedrawStat"]
 RULE = ("(1) warmup-evidence: real Sampler iterations in the prior-sampling phase (ess_ratio chosen so that beta stays 0 for 1..8 "
-        "iterations; n_particles in {1,2,3,4,5,8,16,32,64}; d in {1,2}; with and without blobs; vectorised and per-point likelihood), "
-        "np.random.rand replaced by a tape of dyadic points so that the number of finite draws of every batch is scripted "
-        "(likelihood is -inf exactly on x0 < threshold), np.random.choice replaced by a tape; after every iteration (a) the recorded "
-        "logz is compared with the Rat model's linear-space evidence (|exp(logz) - Z| <= 1e-12 Z), (b) the stored u rows must be, "
-        "bit for bit, the drawn rows the replacement step of the pipeline model (`warm.rep` = Model.Pipeline.warmup) selects from the "
-        "same picks, (c) every stored record must be whole (x = T(u), logl = L(x), blob = blob(x)) and every stored logl finite whenever "
-        "the batch had a finite draw; 4% of the cases end with a batch with NO finite draw (the recorded finding F8), where model and "
-        "code must both store the batch unchanged with Z = 0. Non-trivial = at least two warm-up iterations and at least one batch with "
-        "-inf draws. "
-        "(2) pipeline-warmup-replay: whole real Sampler runs (both kernels, both resamplers, d in {1,2,3}, n in {8,16,24}, supported "
+        "iterations; n_particles in {1,2,3,4,5,8,16,32,64}; d in {1,2,3}; no blobs / blobs_dtype declared / blobs returned without a "
+        "declaration; vectorised and per-point likelihood), np.random.rand replaced by a tape of BLOCKS of dyadic points so that the "
+        "number of finite draws of every block is scripted (likelihood is -inf exactly on x0 < threshold; in 12% of the runs some "
+        "iteration first receives 1-3 blocks with no finite draw, which the sampler must discard and draw again since /repo 959029e; "
+        "2 runs per 250 script 1000 such blocks with n in {1,2}: the cap must raise and nothing may be committed), np.random.choice "
+        "replaced by a tape; after every iteration (a) the recorded logz is compared with the Rat model's linear-space evidence "
+        "n_finite/n_drawn or harmonic mean (|exp(logz) - Z| <= 1e-12 Z), (b) the stored u rows must be, bit for bit, the drawn rows "
+        "that the redraw loop + replacement step of the pipeline model (`warmR.rep` = Model.PipelineR.warmupL) selects from the same "
+        "blocks and picks, and n_drawn must agree, (c) every stored record must be whole (x = T(u), logl = L(x), blob = blob(x)) and "
+        "every stored logl finite, (d) the call sites must be those of an i.i.d. batch: np.random.rand called once per block with "
+        "(n, d), the likelihood evaluated exactly at the transformed rows of every block in order, `calls` increased by n_drawn, "
+        "np.random.choice called once over exactly the finite positions of the kept block. Non-trivial = at least two warm-up "
+        "iterations and at least one iteration whose evidence is set. "
+        "(2) sm-warmup-records: the same runs; every committed u, x, logl and blob row, the blobs slot of every returned dictionary "
+        "and the iteration at which the cap raises are compared exactly with Model.RecSM.iterateR at Rat (`c11sm.run`; T u = 8u-4, "
+        "logl = -1/2 sum x^2, blob = x0: every float operation exact on the dyadic inputs). Non-trivial = some replacement happened. "
+        "(3) pipeline-warmup-replay: whole real Sampler runs (both kernels, both resamplers, d in {1,2,3}, n in {8,16,24}, supported "
         "prior fraction f in {1/8,...,15/16}, ess_ratio in {1.5,2.5,3.5}) through warm-up AND annealing, all randomness recorded on a "
-        "tape and replayed by Model.Pipeline.runIters (`pipe.F`): beta, ESS, logz after reweighting, committed logz (1e-9), resampled "
-        "indices, accept masks (a -inf proposal must be rejected) and the committed batches (tags -> u bytes, logl bit for bit) must "
-        "agree; every stored logl of the real run must be finite. Runs that hit a batch with no finite draw stop there; the model must "
-        "leave its domain at exactly that iteration (F8). Non-trivial = a batch with -inf draws, >= 2 warm-up and >= 1 annealing "
-        "iteration.")
+        "tape (number of discarded draws included) and replayed by Model.Pipeline.runItersR (`pipe.F`): beta, ESS, logz after "
+        "reweighting, committed logz (1e-9), resampled indices, accept masks (a -inf proposal must be rejected) and the committed "
+        "batches (tags -> u bytes, logl bit for bit) must agree; every stored logl of the real run must be finite. Non-trivial = a "
+        "batch with -inf draws, >= 2 warm-up and >= 1 annealing iteration. "
+        "(4) real-rng-warmup: plain seeded runs, nothing patched (f in {1/32,...,15/16}, n in {4,...,256}, 2-6 warm-up iterations, "
+        "ESS mode and volume-variation mode): the likelihood evaluations of every iteration must form discarded all--inf blocks "
+        "followed by one kept block, the recorded logz must be the Rat model's on the observed (n, n_finite, n_drawn), no -inf may be "
+        "stored, and — in runs without a redraw and with (1-f)^n <= 1e-3 — the pooled finite count must have an EXACT binomial(N, f) "
+        "tail probability >= 1e-15 (the only statistical threshold). Non-trivial = some iteration's evidence was set.")
 MODELLED = ["np.random.choice(finite_idx, size=k, replace=True) returns k elements of finite_idx (hypothesis `PicksOk` of the "
             "pipeline theorems; the suites replace / observe it)",
             "np.isinf / the likelihood: a draw is `none` on the tape iff its log-likelihood is not finite; NaN and +inf likelihoods are "
             "outside the statement",
-            "a batch with NO finite draw is the recorded known finding F8 (stored as is, logz = -inf): `TapeOk.fin` excludes it from the "
-            "theorems, `C11_all_inf_batch` and the F8 cases of both suites record what happens",
+            "np.random.rand + the user's prior transform and likelihood: the finiteness indicators of the draws are independent "
+            "Bernoulli(f) (H_iid of the statistical theorems C11_first_batch_unbiased / _variance / _chebyshev / _lln, "
+            "C11_warmup_concentration, C11_stored_particle_law, C11_redraw_expectation); the PRNG idealisation is not verified, its "
+            "structural part (one fresh (n, d) block per pass, every draw evaluated once and counted) is checked by warmup-evidence",
             "that the sampler stays at beta = 0 while the pool is below the ESS target is C05's theorem on the same pipeline model "
-            "(`C05_warmup_ess`, used by `warm_reweight`); the pool condition is a hypothesis of `C11_pipeline_warmup`",
+            "(`C05_warmup_ess`, `runEss_cases`, `runDyn_cases`, used by `warm_reweight_gen`); the pool condition is a hypothesis of "
+            "`C11_pipelineL_warmup` (<= in ESS mode, < in volume-variation mode)",
             "proposal generation, Hastings factors and Metropolis uniforms at beta > 0 arrive on the tape (C03's model); the pipeline "
             "model rejects a `none` proposal by definition and the replay compares the accept masks with the real ones",
-            "C11_final is an identity for the mixture-importance estimator over a FINITE state space whose stored batches have their "
-            "nominal tempered laws and exact normalisers on the supported region; that the finite adaptive particle system approaches "
-            "those laws (MCMC equilibrium, law of large numbers: 'converges') is not proved (C01/C02 are partial for the same reason)",
-            "volume-variation mode: the pipeline model and `C11_pipeline_warmup` are ESS mode only; the replacement step and "
-            "`C11_warmup_all_finite` do not depend on the mode"]
+            "C11_final / C11_meanfield_supported are statements about the mixture-importance estimator over a FINITE state space whose "
+            "stored batches have their nominal tempered laws (marginally: proved for the warm-up batches, C11_stored_particle_law) and "
+            "exact normalisers on the supported region, and about its mean-field recursion; that the finite adaptive particle system "
+            "approaches that recursion (propagation of chaos: 'converges') is not proved (C01/C02 are partial for the same reason)",
+            "the redraw loop's tape: a tape that ends while the loop still asks for a block is outside the model (`none`); the real "
+            "source never ends"]
 ASSUMPTIONS = ["likelihood is deterministic and -inf exactly on the scripted region"]
 
 
@@ -51,67 +68,186 @@ def _quiet():
     return contextlib.redirect_stdout(io.StringIO())
 
 
-def run_warmup(rng, n, fins, d=1, blobs=False, vectorize=False):
-    """fins[k] = number of finite draws wanted in warm-up iteration k; returns per-iteration records"""
+BLOB_MODES = ("none", "declared", "undeclared")
+
+
+def _like1(x, thr=0.0):
+    return -np.inf if x[0] < thr else -0.5 * float(np.sum(x ** 2))
+
+
+def run_warmup(rng, n, fins, d=1, blobs=False, vectorize=False, blob_mode=None):
+    """fins[k] = number of finite draws wanted in warm-up iteration k; returns per-iteration records.
+    blob_mode: "none" | "declared" (blobs_dtype given) | "undeclared" (the likelihood returns (logl, blob) and no
+    blobs_dtype is given: the documented form, handled since /repo 9130321)."""
     from tempest import Sampler
+    if blob_mode is None:
+        blob_mode = "declared" if blobs else "none"
+    have_blobs = blob_mode != "none"
     k = len(fins)
     thr = 0.0     # x0 < 0  <=> u0 < 1/2  -> -inf
-
-    def like1(x):
-        return -np.inf if x[0] < thr else -0.5 * float(np.sum(x ** 2))
+    evaluated = []      # every point the likelihood was asked about, in order
 
     def like(x):
         if vectorize:
-            return np.array([like1(r) for r in np.atleast_2d(x)])
-        l = like1(x)
-        return (l, float(x[0])) if blobs else l
+            X = np.atleast_2d(x)
+            evaluated.extend(np.array(r, dtype=float) for r in X)
+            return np.array([_like1(r, thr) for r in X])
+        evaluated.append(np.array(x, dtype=float))
+        l = _like1(x, thr)
+        return (l, float(x[0])) if have_blobs else l
 
     def prior(u):
         return 8.0 * u - 4.0
     s = Sampler(prior, like, d, n_particles=n, clustering=False, ess_ratio=k - 0.5, vectorize=vectorize,
-                blobs_dtype=("f8" if blobs else None), n_steps=1, n_max_steps=1)
+                blobs_dtype=("f8" if blob_mode == "declared" else None), n_steps=1, n_max_steps=1)
     s._core._initialize_fresh()
     recs = []
     for it in range(k):
-        nfin = fins[it]
-        u0 = [Fraction(rng.randrange(1 << 10, 1 << 11), 1 << 11) for _ in range(nfin)] + \
-             [Fraction(rng.randrange(1, 1 << 10), 1 << 11) for _ in range(n - nfin)]
-        rng.shuffle(u0)
-        U = np.array([[float(v)] + [rng.random() for _ in range(d - 1)] for v in u0])
+        # successive np.random.rand blocks of this iteration: finite counts; all but the last are 0 (discarded, /repo 959029e)
+        counts = list(fins[it]) if isinstance(fins[it], (list, tuple)) else [fins[it]]
+        nfin = counts[-1]
+        UFs, u0s = [], []
+        for cnt in counts:
+            u0 = [Fraction(rng.randrange(1 << 10, 1 << 11), 1 << 11) for _ in range(cnt)] + \
+                 [Fraction(rng.randrange(1, 1 << 10), 1 << 11) for _ in range(n - cnt)]
+            rng.shuffle(u0)
+            # every coordinate dyadic with 11 bits: x = 8u - 4, x**2, their sum and the factor -1/2 are exact in binary64
+            UFs.append([[v] + [Fraction(rng.randrange(1, 1 << 11), 1 << 11) for _ in range(d - 1)] for v in u0])
+            u0s.append(u0)
+        Us = [np.array([[float(c) for c in row] for row in UF]) for UF in UFs]
+        u0, UF, U = u0s[-1], UFs[-1], Us[-1]
+        queue = list(Us)
         picks = []
+        rand_calls, choice_calls = [], []
+        n_eval0 = len(evaluated)
+        calls0 = int(s.state.get_current("calls") or 0)
+
+        def rand(*shape):
+            rand_calls.append(tuple(int(v) for v in shape))
+            if not queue:
+                raise TapeExhausted()
+            return queue.pop(0).copy()
 
         def choice(a, size=None, replace=True, p=None):
             a = np.asarray(a)
+            choice_calls.append(([int(v) for v in a.tolist()], None if size is None else int(size), bool(replace), p is None))
             out = [int(a[rng.randrange(len(a))]) for _ in range(size)]
             picks.extend(out)
             return np.array(out, dtype=int)
-        with common.patched(np.random, "rand", lambda *shape: U.copy()), common.patched(np.random, "choice", choice), \
+        raised = None
+        with common.patched(np.random, "rand", rand), common.patched(np.random, "choice", choice), \
                 _quiet(), warnings.catch_warnings():
             warnings.simplefilter("ignore")
-            cur = s.sample()
+            try:
+                cur = s.sample()
+            except TapeExhausted:
+                raised = "tape"
+            except ValueError as e:
+                if "no prior draw with finite log-likelihood" not in str(e):
+                    raise
+                raised = "cap"
+        if raised:
+            recs.append({"raised": raised, "n": n, "nfin": nfin, "counts": counts, "UFs": UFs, "picks": picks,
+                         "flags_blocks": ["".join("1" if float(v) >= 0.5 else "0" for v in b) for b in u0s],
+                         "rand_calls": list(rand_calls), "history_length": int(s.state.get_history_length())})
+            break
         su = np.array(s.state.get_history("u", it), dtype=float)
         sx = np.array(s.state.get_history("x", it), dtype=float)
         sl = np.array(s.state.get_history("logl", it), dtype=float)
-        whole = all(np.array_equal(sx[j], prior(su[j])) and (sl[j] == like1(sx[j])) for j in range(n))
-        if blobs:
+        whole = all(np.array_equal(sx[j], prior(su[j])) and (sl[j] == _like1(sx[j], thr)) for j in range(n))
+        sb = None
+        if have_blobs:
             sb = np.array(s.state.get_history("blobs", it), dtype=float).reshape(n)
             whole = whole and all(sb[j] == sx[j][0] for j in range(n))
-        # which drawn row each stored row is (drawn rows are pairwise distinct in u0 only up to repetition: match by bytes, first hit)
-        recs.append({"beta": float(cur["beta"]), "logz": float(cur["logz"]), "n": n, "nfin": nfin,
-                     "flags": "".join("1" if float(v) >= 0.5 else "0" for v in u0), "picks": picks,
-                     "U": U, "stored_u": su, "whole": bool(whole),
+        ret_b = cur.get("blobs")
+        # H_iid, structurally: fresh (n, d) blocks of uniforms, one per pass of the redraw loop, every row of every block
+        # transformed and evaluated exactly once (nothing conditioned on before the count), every draw counted, one `choice`
+        # over exactly the finite positions of the kept block
+        K = len(counts)
+        fin_pos = [j for j, v in enumerate(u0) if float(v) >= 0.5]
+        ev = evaluated[n_eval0:]
+        allU = np.concatenate(Us, axis=0)
+        sites = None
+        if rand_calls != [(n, d)] * K:
+            sites = f"np.random.rand called {rand_calls} (expected {K} time(s) with ({n}, {d}))"
+        elif len(ev) != K * n or not all(np.array_equal(ev[j], prior(allU[j])) for j in range(K * n)):
+            sites = f"the likelihood was evaluated at {len(ev)} point(s), expected exactly the {K * n} transformed draws in order"
+        elif int(cur["calls"]) - calls0 != K * n:
+            sites = f"calls increased by {int(cur['calls']) - calls0}, expected {K * n} (every draw counts)"
+        elif 0 < nfin < n and choice_calls != [(fin_pos, n - nfin, True, True)]:
+            sites = f"np.random.choice called with {choice_calls!r}, expected once over finite_idx={fin_pos} size={n - nfin}"
+        elif nfin == n and choice_calls:
+            sites = f"np.random.choice called {len(choice_calls)} time(s) for a batch with {nfin} of {n} finite draws"
+        recs.append({"beta": float(cur["beta"]), "logz": float(cur["logz"]), "n": n, "nfin": nfin, "ndrawn": K * n,
+                     "counts": counts, "raised": None,
+                     "flags": "".join("1" if float(v) >= 0.5 else "0" for v in u0),
+                     "flags_blocks": ["".join("1" if float(v) >= 0.5 else "0" for v in b) for b in u0s],
+                     "picks": picks, "U": U, "UF": UF, "UFs": UFs, "Uall": allU,
+                     "stored_u": su, "stored_x": sx, "stored_l": sl, "stored_b": sb,
+                     "ret_blobs": None if ret_b is None else np.array(ret_b, dtype=float).reshape(-1),
+                     "whole": bool(whole), "sites": sites,
                      "stored_inf": int(np.sum(~np.isfinite(sl))),
                      "stored_in_support": bool(np.all(sx[:, 0] >= thr))})
     return recs
 
 
+class TapeExhausted(Exception):
+    pass
+
+
+def _frs(v):
+    return f"{v.numerator}/{v.denominator}"
+
+
+def _sm_line(blob_mode, vectorize, recs):
+    hb = 1 if blob_mode == "declared" else 0
+    lb = 0 if blob_mode == "none" else 1
+    tapes = []
+    for r in recs:
+        blocks = "!".join(",".join("_".join(_frs(c) for c in row) for row in UF) for UF in r["UFs"])
+        tapes.append(f"{blocks}:{','.join(map(str, r['picks'])) if r['picks'] else '-'}")
+    return f"c11sm.run hb={hb} lb={lb} tapes={';'.join(tapes)}"
+
+
+def _sm_parse(ans):
+    """'U|X|L|B ret=…' -> per batch arrays of floats (None for -inf); B None when there is no blobs history"""
+    body, ret = ans.split(" ret=")
+    U, X, L, B = body.split("|")
+
+    def vecs(sv):
+        return [[[float(Fraction(c)) for c in row.split("_")] for row in b.split(",")] for b in sv.split(";")]
+    u, x = vecs(U), vecs(X)
+    l = [[(-math.inf if v == "ninf" else float(Fraction(v))) for v in b.split(",")] for b in L.split(";")]
+    b = None if B == "-" else [[float(Fraction(v)) for v in bb.split(",")] for bb in B.split(";")]
+    rets = [None if r == "N" else [float(Fraction(v)) for v in r.split(",")] for r in ret.split(";")]
+    return u, x, l, b, rets
+
+
+def _fin_last(f):
+    return f[-1] if isinstance(f, (list, tuple)) else f
+
+
+def _ndrawn(f, n):
+    return n * (len(f) if isinstance(f, (list, tuple)) else 1)
+
+
+def _corrected(f, n):
+    """was the evidence of this iteration SET (some -inf draw, or a discarded block)?"""
+    return _fin_last(f) < n or _ndrawn(f, n) > n
+
+
 def _correspond_evidence(tier, drv):
     rng = common.rng_for("C11")
-    c = Corr("warmup-evidence", "exact-dyadic inputs; evidence compared in linear space with the Rat model (1e-12 relative); "
-                                "replacement (stored rows) compared exactly with Model.Pipeline.warmup")
+    c = Corr("warmup-evidence", "exact-dyadic inputs; evidence compared in linear space with the Rat model (1e-12 relative); redraw "
+                                "loop (which block is kept, n_drawn, the cap) and replacement (stored rows) compared exactly with "
+                                "Model.PipelineR.warmupL; RNG / likelihood call sites of every iteration compared exactly with the "
+                                "i.i.d.-blocks reading (H_iid)")
+    c2 = Corr("sm-warmup-records", "exact (dyadic inputs, every float operation of prior transform and likelihood exact): "
+                                   "every committed u, x, logl and blob row and the returned blobs compared with "
+                                   "Model.RecSM.iterateR (redraw loop included) at Rat")
     n_cases = 250 if tier == "quick" else 4000
     lines, all_recs = [], []
-    for _ in range(n_cases):
+    for case_no in range(n_cases):
         n = rng.choice([1, 2, 3, 4, 5, 8, 16, 32, 64])
         k = rng.randint(1, 8)
         style = rng.random()
@@ -123,56 +259,127 @@ def _correspond_evidence(tier, drv):
                 fins.append(max(1, n // 2))
             else:
                 fins.append(rng.randint(1, n))
-        f8 = rng.random() < 0.04
-        if f8:
-            fins[-1] = 0          # the recorded finding F8 as the LAST batch: stored as is, Z = 0
+        # blocks without a finite draw (the repaired finding F8): discarded and drawn again, in 12% of the runs, anywhere
+        redraw = rng.random() < 0.12
+        if redraw:
+            for _ in range(rng.randint(1, 2)):
+                j = rng.randrange(k)
+                if not isinstance(fins[j], list):
+                    fins[j] = [0] * rng.randint(1, 3) + [fins[j] if rng.random() < 0.7 else n]
+        # the cap: 1000·n draws without a finite one raise (n small to keep it cheap): the last iteration never returns
+        cap = case_no % 125 == 7
+        if cap:
+            n = rng.choice([1, 2])
+            fins = [min(_fin_last(f), n) or 1 if not isinstance(f, list) else [0] * (len(f) - 1) + [max(1, min(f[-1], n))] for f in fins]
+            fins[-1] = [0] * 1000
         vectorize = rng.random() < 0.2
-        blobs = (not vectorize) and rng.random() < 0.3
-        recs = run_warmup(rng, n, fins, d=rng.choice([1, 2]), blobs=blobs, vectorize=vectorize)
-        lines.append("warm.Q bs=" + ";".join(f"{n}:{f}" for f in fins))
+        blob_mode = "none" if vectorize else rng.choice(["none", "none", "declared", "undeclared", "undeclared"])
+        d = rng.choice([1, 2, 3])
+        recs = run_warmup(rng, n, fins, d=d, vectorize=vectorize, blob_mode=blob_mode)
+        done = [r for r in recs if not r["raised"]]
+        lines.append("warmR.Q bs=" + ";".join(f"{n}:{r['nfin']}:{r['ndrawn']}" for r in done) if done else "warmR.Q bs=1:1:1")
         for r in recs:
-            lines.append(f"warm.rep fl={r['flags']} picks={','.join(map(str, r['picks'])) if r['picks'] else '-'}")
-        all_recs.append((n, fins, recs))
-        c.case((n, fins), k >= 2 and any(f < n for f in fins))
-        c.count(f"warmups={k}")
-        c.count(f"n={n}")
-        c.count("some_batch_with_inf" if any(f < n for f in fins) else "all_finite")
-        c.count("first_batch_all_finite" if fins[0] == n else "first_batch_with_inf")
+            lines.append(f"warmR.rep n={n} blocks={'!'.join(r['flags_blocks'])} picks={','.join(map(str, r['picks'])) if r['picks'] else '-'}")
+        lines.append(_sm_line(blob_mode, vectorize, recs))
+        all_recs.append((n, fins, recs, d, blob_mode, vectorize))
+        nontriv = k >= 2 and any(_corrected(f, n) for f in fins)
+        c.case((n, fins), nontriv)
+        c2.case((n, fins, d, blob_mode, vectorize), any(0 < _fin_last(f) < n for f in fins))
+        for cc in (c, c2):
+            cc.count(f"warmups={k}")
+            cc.count(f"n={n}")
+            cc.count(f"d={d}")
+            cc.count(f"blobs={blob_mode}")
+            if vectorize:
+                cc.count("vectorize")
+            if redraw:
+                cc.count("runs_with_discarded_blocks")
+            cc.count("discarded_blocks", sum(len(f) - 1 for f in fins if isinstance(f, list)))
+            if cap:
+                cc.count("cap_1000n_draws_raises")
+        c.count("some_batch_with_inf" if any(_fin_last(f) < n for f in fins) else "all_finite")
+        c.count("first_batch_all_finite" if not _corrected(fins[0], n) else "first_batch_evidence_set")
+        c.count("kept_block_all_finite_after_redraw", sum(1 for f in fins if isinstance(f, list) and f[-1] == n))
         c.count("replacement_picks", sum(len(r["picks"]) for r in recs))
-        if f8:
-            c.count("F8_last_batch_no_finite_draw")
-        if vectorize:
-            c.count("vectorize")
-        if blobs:
-            c.count("blobs")
+        c2.count("rows_compared", n * len(done))
+        c2.count("rows_replaced", sum(len(r["picks"]) for r in done))
     answers = iter(drv.batch(lines))
-    for (n, fins, recs) in all_recs:
+    for (n, fins, recs, d, blob_mode, vectorize) in all_recs:
         ans = next(answers)
-        line = "warm.Q bs=" + ";".join(f"{n}:{f}" for f in fins)
-        zs = [Fraction(t) for t in ans.split(",")]
+        done = [r for r in recs if not r["raised"]]
+        line = "warmR.Q bs=" + ";".join(f"{n}:{r['nfin']}:{r['ndrawn']}" for r in done)
+        zs = [Fraction(t) for t in ans.split(",")] if done else []
         prob = None
-        for it, (r, z) in enumerate(zip(recs, zs)):
+        for it, r in enumerate(recs):
             rep = next(answers)
             if prob:
                 continue
-            tags_s, flags_after, _lz = rep.split(";")
+            if r["raised"]:
+                if r["raised"] == "tape":
+                    prob = f"iteration {it + 1}: the sampler asked for more than the {len(r['counts'])} scripted block(s) (np.random.rand calls {r['rand_calls']})"
+                elif rep != "raise":
+                    prob = f"iteration {it + 1}: the sampler raised at the cap after {len(r['rand_calls'])} blocks, the model returned {rep[:80]}"
+                elif len(r["rand_calls"]) != 1000 or r["history_length"] != it:
+                    prob = f"iteration {it + 1}: cap raised after {len(r['rand_calls'])} blocks with {r['history_length']} committed batches (expected 1000, {it})"
+                continue
+            if rep == "raise" or rep == "bad-op":
+                prob = f"iteration {it + 1}: model: {rep}; the sampler stored a batch"
+                continue
+            z = zs[it]
+            tags_s, flags_after, nd_s, _lz = rep.split(";")
             tags = [int(t) for t in tags_s.split(",")]
             if r["beta"] != 0.0:
                 prob = f"iteration {it + 1}: beta={r['beta']} although the pool is below the ESS target (harness expectation)"
+            elif int(nd_s) != r["ndrawn"]:
+                prob = f"iteration {it + 1}: model n_drawn={nd_s}, scripted blocks {r['counts']}"
             elif abs(math.exp(r["logz"]) - float(z)) > 1e-12 * float(z):
                 prob = f"iteration {it + 1}: recorded logz={r['logz']!r} (Z={math.exp(r['logz'])!r}), model Z={z} ({float(z)!r})"
-            elif not np.array_equal(r["stored_u"], r["U"][tags]):
-                prob = f"iteration {it + 1}: stored u rows are not the rows the model's replacement selects (tags {tags})"
+            elif not np.array_equal(r["stored_u"], r["Uall"][tags]):
+                prob = f"iteration {it + 1}: stored u rows are not the rows the model's loop + replacement select (tags {tags})"
             elif not r["whole"]:
                 prob = f"iteration {it + 1}: a stored record is not whole (x != T(u) or logl != L(x) or blob != blob(x))"
-            elif r["nfin"] > 0 and (r["stored_inf"] or not r["stored_in_support"] or "0" in flags_after):
+            elif r["stored_inf"] or not r["stored_in_support"] or "0" in flags_after:
                 prob = f"iteration {it + 1}: {r['stored_inf']} stored particle(s) with non-finite logl / outside the support"
-            elif r["nfin"] == 0 and (r["stored_inf"] != n or "1" in flags_after):
-                prob = f"iteration {it + 1}: batch without a finite draw: stored_inf={r['stored_inf']} (model: stored unchanged, F8)"
+            elif r["sites"]:
+                prob = f"iteration {it + 1}: {r['sites']}"
+        cfgd = {"n": n, "fins": fins, "d": d, "blob_mode": blob_mode, "vectorize": vectorize}
         if prob:
-            c.disagree(input=line, impl=prob, model=ans, n=n, fins=fins)
-        c.sample({"op": line, "model_Z": ans, "impl_logz": [r["logz"] for r in recs]})
-    return c
+            c.disagree(input=line, impl=prob, model=ans, **cfgd)
+        c.sample({"op": line, "model_Z": ans, "impl_logz": [r["logz"] for r in done]})
+        # ---- the record model
+        sm = next(answers)
+        prob2 = None
+        raised_at = next((i for i, r in enumerate(recs) if r["raised"]), None)
+        if raised_at is not None:
+            if sm != f"error:{raised_at}":
+                prob2 = f"the sampler raised in warm-up iteration {raised_at + 1} ({recs[raised_at]['raised']}); record model: {sm[:80]}"
+        elif sm.startswith("error") or sm == "bad-op":
+            prob2 = f"record model: {sm}; the real sampler ran {len(recs)} warm-up iteration(s)"
+        else:
+            mu, mx, ml, mb, mret = _sm_parse(sm)
+            if not (len(mu) == len(mx) == len(ml) == len(recs)) or (mb is not None and len(mb) != len(recs)):
+                prob2 = f"record model committed {len(mu)}/{len(mx)}/{len(ml)} batches, the real sampler {len(recs)}"
+            for it, r in enumerate(recs):
+                if prob2:
+                    break
+                if not np.array_equal(r["stored_u"], np.array(mu[it], dtype=float).reshape(n, d)):
+                    prob2 = f"iteration {it + 1}: committed u rows differ from the record model"
+                elif not np.array_equal(r["stored_x"], np.array(mx[it], dtype=float).reshape(n, d)):
+                    prob2 = f"iteration {it + 1}: committed x rows differ from the record model"
+                elif not np.array_equal(r["stored_l"], np.array(ml[it], dtype=float)):
+                    prob2 = f"iteration {it + 1}: committed logl differ from the record model: {r['stored_l'].tolist()} vs {ml[it]}"
+                elif (mb is None) != (r["stored_b"] is None):
+                    prob2 = f"iteration {it + 1}: blobs history {'absent' if r['stored_b'] is None else 'present'} in the real sampler, {'absent' if mb is None else 'present'} in the record model"
+                elif mb is not None and not np.array_equal(r["stored_b"], np.array(mb[it], dtype=float)):
+                    prob2 = f"iteration {it + 1}: committed blobs differ from the record model: {r['stored_b'].tolist()} vs {mb[it]}"
+                elif (mret[it] is None) != (r["ret_blobs"] is None):
+                    prob2 = f"iteration {it + 1}: returned blobs slot differs (None vs array)"
+                elif mret[it] is not None and not np.array_equal(r["ret_blobs"], np.array(mret[it], dtype=float)):
+                    prob2 = f"iteration {it + 1}: returned blobs differ from the record model"
+        if prob2:
+            c2.disagree(input=_sm_line(blob_mode, vectorize, recs)[:300], impl=prob2, model=sm[:300], **cfgd)
+        c2.sample({"config": cfgd, "model_hist": sm[:200]})
+    return [c, c2]
 
 
 def _replay_target(rng, d, f):
@@ -218,7 +425,7 @@ def _correspond_replay(tier, drv):
                 rec.iteration()
                 last = rec.impl[-1]
                 if last["beta"] == 0.0 and not np.any(np.isfinite(last["logl"])):
-                    f8_at = k
+                    f8_at = k          # cannot happen since /repo 959029e (finding F8 repaired): reported below
                     break
                 k += 1
         except Exception as e:  # noqa
@@ -244,15 +451,12 @@ def _correspond_replay(tier, drv):
         c.count("warmup_batches_with_inf", with_inf)
         c.count("annealing_iterations", annealed)
         c.count("inf_proposals_at_beta>0", inf_props)
-        if f8_at is not None:
-            c.count("F8_batch_no_finite_draw")
+        c.count("warmup_iterations_with_discarded_blocks", sum(1 for t in rec.tapes if t.startswith("D/") and len(t.split("/")) == 5))
         if aborted:
             c.count("aborted_degenerate_covariance_prefix_replayed")
     for (rec, cfg, f8_at), ans in zip(recs, drv.batch(lines)):
         if f8_at is not None:
-            # the model excludes exactly this: `iterate` returns none at the iteration whose batch has no finite draw
-            if ans != f"error:{f8_at}":
-                c.disagree(input=cfg, impl=f"batch {f8_at + 1} has no finite draw (F8)", model=ans[:200], **cfg)
+            c.disagree(input=cfg, impl=f"batch {f8_at + 1} was stored without a single finite log-likelihood", model=ans[:200], **cfg)
             continue
         prob, tie = pipeline.compare(rec, ans)
         if tie:
@@ -275,9 +479,98 @@ def _correspond_replay(tier, drv):
     return c
 
 
+def _correspond_real_rng(tier, drv):
+    """unpatched numpy stream: the W model on the OBSERVED block counts, both reweighting modes, natural redraws"""
+    from tempest import Sampler
+    rng = common.rng_for("C11.realrng")
+    c = Corr("real-rng-warmup", "numpy's own stream (seeded), nothing patched: recorded warm-up evidence vs the Rat model on the observed "
+                                "(n, n_finite, n_drawn) (1e-12 relative); pooled finite count vs binomial(N, f): exact tail >= 1e-15")
+    n_runs = 60 if tier == "quick" else 600
+    lines, runs = [], []
+    for i in range(n_runs):
+        f = rng.choice([0.03125, 0.125, 0.25, 0.5, 0.75, 0.9375])
+        n = rng.choice([4, 8, 16, 64, 256])
+        k = rng.randint(2, 6)
+        d = rng.choice([1, 2])
+        vv = rng.choice([None, None, 0.5, 1.0])
+        thr = 8.0 * (1.0 - f) - 4.0
+        fin_log = []
+
+        def like(x, thr=thr, fin_log=fin_log):
+            l = -np.inf if x[0] < thr else -0.5 * float(np.sum(x ** 2))
+            fin_log.append(l != -np.inf)
+            return l
+        seed = rng.randrange(2 ** 31)
+        np.random.seed(seed)
+        s = Sampler(lambda u: 8.0 * u - 4.0, like, d, n_particles=n, clustering=False, ess_ratio=k - 0.5, volume_variation=vv,
+                    n_steps=1, n_max_steps=1)
+        s._core._initialize_fresh()
+        its = []
+        with _quiet(), warnings.catch_warnings():
+            warnings.simplefilter("ignore")
+            for it in range(k):
+                m0 = len(fin_log)
+                try:
+                    cur = s.sample()
+                except Exception as e:  # noqa  (a supported fraction f > 0 never exhausts 1000 blocks in practice)
+                    its.append({"raised": f"{type(e).__name__}: {e}", "ndrawn": len(fin_log) - m0, "nfin": 0})
+                    break
+                ev = fin_log[m0:]
+                stored = np.array(s.state.get_history("logl", it), dtype=float)
+                its.append({"beta": float(cur["beta"]), "logz": float(cur["logz"]), "ndrawn": len(ev),
+                            "nfin": int(sum(ev[-n:])) if len(ev) >= n else -1, "blocks_ok": len(ev) % n == 0 and len(ev) >= n and
+                            all(not any(ev[j * n:(j + 1) * n]) for j in range(len(ev) // n - 1)),
+                            "stored_inf": int(np.sum(~np.isfinite(stored)))})
+        runs.append(({"f": f, "n": n, "k": k, "d": d, "volume_variation": vv, "seed": seed}, its))
+        ok_its = [t for t in its if "raised" not in t]
+        lines.append("warmR.Q bs=" + (";".join(f"{n}:{max(t['nfin'], 1)}:{max(t['ndrawn'], n)}" for t in ok_its) or "1:1:1"))
+        c.case((f, n, k, d, vv, seed), any(t["nfin"] < n or t["ndrawn"] > n for t in its))
+        c.count(f"f={f}")
+        c.count(f"n={n}")
+        c.count("mode=" + ("ess" if vv is None else "volume_variation"))
+        c.count("iterations", k)
+        c.count("iterations_with_discarded_blocks", sum(1 for t in its if t["ndrawn"] > n))
+        c.count("draws", sum(t["ndrawn"] for t in its))
+    for (cfg, its), ans in zip(runs, drv.batch(lines)):
+        zs = [Fraction(t) for t in ans.split(",")]
+        n, f = cfg["n"], cfg["f"]
+        prob = None
+        for it, t in enumerate(its):
+            if "raised" in t:
+                prob = f"iteration {it + 1}: the sampler raised {t['raised']} after {t['ndrawn']} draws (f = {f}, n = {n})"
+                break
+            z = zs[it]
+            if t["beta"] != 0.0:
+                prob = f"iteration {it + 1}: beta={t['beta']} although the pool is below the ESS target"
+            elif not t["blocks_ok"]:
+                prob = f"iteration {it + 1}: {t['ndrawn']} likelihood evaluations do not form discarded all--inf blocks of {n} followed by one kept block"
+            elif t["stored_inf"]:
+                prob = f"iteration {it + 1}: {t['stored_inf']} stored particle(s) with non-finite logl"
+            elif abs(math.exp(t["logz"]) - float(z)) > 1e-12 * float(z):
+                prob = f"iteration {it + 1}: recorded logz={t['logz']!r} (Z={math.exp(t['logz'])!r}), model Z={z} ({float(z)!r}) for (n, nfin, ndrawn)=({n}, {t['nfin']}, {t['ndrawn']})"
+            if prob:
+                break
+        if not prob and all(t["ndrawn"] == n for t in its) and (1 - f) ** n <= 1e-3:
+            # H_iid against the real generator.  Only runs in which nothing was redrawn (so the number of draws is not a
+            # stopping time) and a block without a finite draw has probability <= 1e-3 (so conditioning on "nothing redrawn"
+            # changes a tail probability by a factor <= 1.01): the pooled count is then binomial(N, f) and the EXACT two-sided
+            # tail is used; the alarm level 1e-15 per run cannot be reached by a correct i.i.d. source in practice
+            from scipy.stats import binom
+            N = sum(t["ndrawn"] for t in its)
+            F = sum(t["nfin"] for t in its)
+            tail = min(float(binom.cdf(F, N, f)), float(binom.sf(F - 1, N, f)))
+            c.count("binomial_tail_checks")
+            if tail < 1e-15:
+                prob = f"pooled finite count {F} of {N} draws has exact binomial({N}, {f}) tail probability {tail:.3g} < 1e-15"
+        if prob:
+            c.disagree(input=cfg, impl=prob, model=ans[:200], **cfg)
+        c.sample({"config": cfg, "n_fin/n_drawn": [(t["nfin"], t["ndrawn"]) for t in its], "model_Z": ans[:120]})
+    return c
+
+
 def correspond(tier):
     drv = common.Driver()
-    return [_correspond_evidence(tier, drv), _correspond_replay(tier, drv)]
+    return _correspond_evidence(tier, drv) + [_correspond_replay(tier, drv), _correspond_real_rng(tier, drv)]
 
 
 # ------------------------------------------------------------------ property oracle on the real code
@@ -295,7 +588,13 @@ def _real_run(rng, f, ess_ratio, n):
     with _quiet(), warnings.catch_warnings():
         warnings.simplefilter("ignore")
         for it in range(int(ess_ratio) + 2):
-            cur = s.sample()
+            try:
+                cur = s.sample()
+            except ValueError as e:
+                if "no prior draw with finite log-likelihood" not in str(e):
+                    raise
+                out.append(("raised", str(e), n))
+                break
             if cur["beta"] != 0.0:
                 break
             stored = s.state.get_history("logl", it)
@@ -323,10 +622,8 @@ def _real_whole_run(h):
             pass
     for t in range(s.state.get_history_length()):
         l = np.array(s.state.get_history("logl", t), dtype=float)
-        if np.any(~np.isfinite(l)) and np.any(np.isfinite(l)):
-            return f"batch {t + 1} (beta={float(s.state.get_history('beta')[t])!r}) stores {int(np.sum(~np.isfinite(l)))} non-finite log-likelihood(s) among finite ones"
-        if np.all(~np.isfinite(l)):
-            return None          # F8: reported separately by the random-run oracle below / the witness
+        if np.any(~np.isfinite(l)):
+            return f"batch {t + 1} (beta={float(s.state.get_history('beta')[t])!r}) stores {int(np.sum(~np.isfinite(l)))} non-finite log-likelihood(s) of {len(l)}"
     return None
 
 
@@ -334,23 +631,38 @@ def search(tier, hints):
     rng = common.rng_for("C11.search")
     found = []
     # scripted batches first (deterministic): the counted-once law with exact fractions
-    for n, fins in [(4, [2, 2]), (4, [2, 2, 2]), (8, [4, 8, 4, 8]), (16, [4, 4, 4, 4, 4]), (2, [1, 1, 1, 1, 1, 1])] + \
-                   [(h["n"], h["fins"]) for h in hints if "fins" in h][:5]:
-        recs = run_warmup(rng, n, fins)
-        fracs = [f / n for f in fins if f < n]
+    scripted = [(4, [2, 2], {}), (4, [2, 2, 2], {}), (8, [4, 8, 4, 8], {}), (16, [4, 4, 4, 4, 4], {}), (2, [1, 1, 1, 1, 1, 1], {}),
+                (8, [4, 4], {"blob_mode": "declared", "d": 2}), (8, [4, 8, 4], {"blob_mode": "undeclared", "d": 2}),
+                (8, [2, 6], {"vectorize": True, "d": 3}), (4, [[0, 2], 2, [0, 0, 4]], {}), (2, [[0, 0, 1], [0, 2]], {"blob_mode": "undeclared"})] + \
+               [(h["n"], h["fins"], {k: h[k] for k in ("d", "blob_mode", "vectorize") if k in h}) for h in hints if "fins" in h][:5]
+    for n, fins, kw in scripted:
+        recs = run_warmup(rng, n, fins, **kw)
+        fracs = [_fin_last(f) / _ndrawn(f, n) for f in fins if _corrected(f, n)]
         if not fracs:
             continue
         lo, hi = min(fracs), max(fracs)
-        first_def = fins[0] < n
+        first_def = _corrected(fins[0], n)
         for it, r in enumerate(recs):
+            if r["raised"]:
+                if r["raised"] == "tape":
+                    found.append({"what": f"warm-up iteration {it + 1} draws more than the scripted {len(r['counts'])} block(s) although the last one has a finite draw",
+                                  "n": n, "fins": fins, **kw})
+                break
             z = math.exp(r["logz"])
             if r["stored_inf"]:
-                found.append({"what": f"warm-up batch {it + 1}: {r['stored_inf']} stored particle(s) with -inf logl although the batch had finite draws", "n": n, "fins": fins})
+                found.append({"what": f"warm-up batch {it + 1}: {r['stored_inf']} stored particle(s) with -inf logl", "n": n, "fins": fins, **kw})
+                break
+            if not r["stored_in_support"]:
+                found.append({"what": f"warm-up batch {it + 1}: a stored particle lies outside the supported region", "n": n, "fins": fins, **kw})
+                break
+            if not r["whole"]:
+                found.append({"what": f"warm-up batch {it + 1}: a stored record is not a whole prior draw (x != T(u), logl != L(x) or blob != blob(x))",
+                              "n": n, "fins": fins, **kw})
                 break
             upper = hi if first_def else 1.0
             if not (lo * (1 - 1e-9) <= z <= upper * (1 + 1e-9)):
-                found.append({"what": f"warm-up evidence after {it + 1} prior-sampling iteration(s): exp(logz)={z!r}, but every batch's finite fraction lies in [{lo}, {upper}] "
-                                      f"(fraction counted {'more than once' if z < lo else 'wrongly'})", "n": n, "fins": fins})
+                found.append({"what": f"warm-up evidence after {it + 1} prior-sampling iteration(s): exp(logz)={z!r}, but every recorded fraction n_finite/n_drawn lies in [{lo}, {upper}] "
+                                      f"(fraction counted {'more than once' if z < lo else 'wrongly'})", "n": n, "fins": fins, **kw})
                 break
         if len(found) >= 3:
             return found
@@ -368,11 +680,14 @@ def search(tier, hints):
         seed, out = _real_run(rng, f, r, n)
         pooled = 0
         for it, (logz, n_inf, m) in enumerate(out):
+            if logz == "raised":
+                found.append({"what": f"warm-up iteration {it + 1} gave up ({n_inf}) although a block of {n} draws has a finite draw with probability {1 - (1 - f) ** n:.6f}",
+                              "f": f, "ess_ratio": r, "n": n, "seed": seed})
+                break
             pooled += m
             se = math.sqrt((1 - f) / (f * n))          # SE of log of one batch's fraction
             if n_inf:
-                found.append({"what": f"stored -inf particles in warm-up batch {it + 1}", "f": f, "ess_ratio": r, "n": n, "seed": seed,
-                              **({"known_id": "F8_all_inf_batch"} if n_inf == m else {})})
+                found.append({"what": f"{n_inf} stored -inf particle(s) of {m} in warm-up batch {it + 1}", "f": f, "ess_ratio": r, "n": n, "seed": seed})
                 break
             if abs(logz - math.log(f)) > 6 * se + 1e-9:
                 found.append({"what": f"warm-up logz after {it + 1} iteration(s) = {logz:.4f}, log(f) = {math.log(f):.4f} (6 SE = {6 * se:.4f})",
@@ -387,7 +702,7 @@ def replay(obj):
         from . import witnesses
         return witnesses.ALL[f["replay"]["witness"]]()
     if "fins" in f:
-        found = search("quick", [f])
+        found = [x for x in search("quick", [f]) if x.get("fins") == f["fins"] and x.get("n") == f["n"]] or search("quick", [f])
         return {"fails": bool(found), "detail": found[:1]}
     if "kernel" in f and "seed" in f:
         bad = _real_whole_run(f)
